@@ -26,7 +26,7 @@ class C14(Prop):
         "tolerated spaces (any whitespace around the string; ASCII spaces after '(', around an operator, between and "
         "after sub-filters); the parse result is compared with the tree the sentence was generated from, with the "
         "independent reference parser (undecorated sentences) and with the extracted model; the SearchRequest bytes "
-        "are compared with an independent RFC 4511 encoding of that tree; non-trivial = decorated, escaped or nested"
+        "are compared with an independent RFC 4511 encoding of that tree; every from_string is made twice with the first result modified in place in between; non-trivial = decorated, escaped or nested"
     )
     assumptions = [
         "interpretation choices (DESIGN.md C13-C15): an empty substring component is 'absent' for initial/final and not derivable for any; ':dn' is matched case-sensitively and takes priority over a matching rule spelled 'dn'",
